@@ -752,6 +752,9 @@ def generate(unit, vacuity=False, only=None):
         elif d.kind == "fn":
             g = gen_fn(d, strip, "verify", vacuity=vacuity)
             a = pos
+            if d.opt("rlimit"):
+                # a verifier attribute (solver budget), not executable text
+                emit("#[verifier::rlimit(%d)]\n" % int(d.opt("rlimit")))
             emit(g.out + "\n\n")
             gu.fns.append(
                 {
